@@ -80,4 +80,11 @@ example : (reach { retryOn := true, numRetries := 1, maxRetries := 1 } 1 0
     (List.replicate 12 .work ++ [.upResp 0 503 false false] ++ List.replicate 4 .work)).trace =
     [.un 0, .uh 0 true, .dh 503 true, .log 503 128] := by decide
 
+/-- terminate while a retried attempt is live: the retry slot, the request slot and the gauges are all given back
+(before the fixes 7680aa93b / 61aef8f64 this ledger ended as retries = 2, requests = 1, upActive = 1) -/
+example : ((fun (s : S) => (s.cleaned, s.retries, s.requests, s.upActive, s.downActive))
+    (reach { retryOn := true, numRetries := 1, maxRetries := 2, maxRequests := 2 } 1 0
+      (List.replicate 12 .work ++ [.upReset 0 .StreamConnectionFailed] ++ List.replicate 5 .work ++ [.terminate 418] ++
+        List.replicate 3 .work))) = (true, 1, 0, 0, 0) := by decide
+
 end MosnVerif.Props.C10
